@@ -6,7 +6,11 @@ cd "$(dirname "$0")"
 exec 9> .build.lock
 flock 9
 # regenerate the MiniPy terms of the translated source units from the working tree (theories/Gen/*.v)
-/venv/bin/python ../harness/py2coq/translate.py --out theories/Gen > .gen.log 2>&1 || { cat .gen.log; exit 3; }
+# (only for a full build: a check regenerates its own property's units itself, see vlib.regen_sources; a targeted build
+#  must not rewrite other properties' units while their checks may be running against another tree)
+if [ $# -eq 0 ] || [ ! -d theories/Gen ]; then
+  /venv/bin/python ../harness/py2coq/translate.py --out theories/Gen > .gen.log 2>&1 || { cat .gen.log; exit 3; }
+fi
 {
   echo "-Q theories PV"
   echo "-arg -w -arg -notation-overridden,-deprecated-hint-without-locality,-deprecated-instance-without-locality,-deprecated-syntactic-definition"
